@@ -2,7 +2,9 @@
 from lib import fw
 from checks import _cl
 
-MODULES = ["SunriseVerif.Props.C05"]
+# the bookkeeping theorems of C04 (incl. the pinned crossing conventions of the regenerated swap helpers) are supporting
+# obligations: pricing, custody and fee accrual all read the active liquidity they maintain
+MODULES = ["SunriseVerif.Props.C05", "SunriseVerif.Props.C04"]
 
 
 def run(ctx):
